@@ -54,12 +54,59 @@ class ClassInfo:
         return f"{self.module.name}:{self.name}"
 
 
+class _CanonCompare(ast.NodeTransformer):
+    """One spelling per comparison: `a > b` is read as `b < a`, `a >= b` as `b <= a`; the operands of == / != are ordered
+    (constants last, otherwise by text).  `is`, `in` and chained comparisons are left alone.  Line numbers are kept."""
+
+    def visit_Compare(self, node):
+        self.generic_visit(node)
+        if len(node.ops) != 1:
+            return node
+        op = node.ops[0]
+        l, r = node.left, node.comparators[0]
+        if isinstance(op, (ast.Gt, ast.GtE)):
+            node.left, node.comparators = r, [l]
+            node.ops = [ast.Lt() if isinstance(op, ast.Gt) else ast.LtE()]
+        elif isinstance(op, (ast.Eq, ast.NotEq)):
+            lc, rc = isinstance(l, ast.Constant), isinstance(r, ast.Constant)
+            if (lc and not rc) or (lc == rc and ast.unparse(l) > ast.unparse(r)):
+                node.left, node.comparators = r, [l]
+        return node
+
+
+    # `not not x` -> x ;  `if not c: A else: B` -> `if c: B else: A` (same for conditional expressions; elif chains untouched)
+    def visit_UnaryOp(self, node):
+        self.generic_visit(node)
+        if isinstance(node.op, ast.Not) and isinstance(node.operand, ast.UnaryOp) and isinstance(node.operand.op, ast.Not):
+            return node.operand.operand
+        return node
+
+    def visit_If(self, node):
+        self.generic_visit(node)
+        if isinstance(node.test, ast.UnaryOp) and isinstance(node.test.op, ast.Not) and node.orelse \
+                and not (len(node.orelse) == 1 and isinstance(node.orelse[0], ast.If)):
+            node.test = node.test.operand
+            node.body, node.orelse = node.orelse, node.body
+        return node
+
+    def visit_IfExp(self, node):
+        self.generic_visit(node)
+        if isinstance(node.test, ast.UnaryOp) and isinstance(node.test.op, ast.Not):
+            node.test = node.test.operand
+            node.body, node.orelse = node.orelse, node.body
+        return node
+
+
+def canon_compare(tree: ast.AST) -> ast.AST:
+    return ast.fix_missing_locations(_CanonCompare().visit(tree))
+
+
 class ModuleInfo:
     def __init__(self, name: str, path: Path, source: str):
         self.name = name
         self.path = path
         self.source = source
-        self.tree = ast.parse(source, filename=str(path))
+        self.tree = canon_compare(ast.parse(source, filename=str(path)))
         self.functions: Dict[str, FuncInfo] = {}
         self.classes: Dict[str, ClassInfo] = {}
         self.imports: Dict[str, str] = {}     # local name -> dotted target
